@@ -2,6 +2,7 @@ package main
 
 import (
 	"bytes"
+	"context"
 	"encoding/hex"
 	"fmt"
 	"io"
@@ -13,6 +14,7 @@ import (
 
 	"github.com/go-logr/logr"
 	"github.com/spf13/cobra"
+	wrgl "github.com/wrgl/wrgl/cmd/wrgl"
 	"github.com/wrgl/wrgl/cmd/wrgl/fetch"
 	"github.com/wrgl/wrgl/cmd/wrgl/utils"
 	"github.com/wrgl/wrgl/pkg/conf"
@@ -27,6 +29,8 @@ import (
 )
 
 // c13_real.go - C13 with the REAL operations instead of their re-enacted call sequences:
+//   ops 0/1/3/4/5: cmd/wrgl commit, commitWithTable, runMerge through the `verif` export hooks
+//     (cmd/wrgl/verif_export.go), on the recording / fault-injecting stores;
 //   op (8 objs upd): the exported fetch.Fetch (cmd/wrgl/fetch/root.go) runs on the recording /
 //     fault-injecting stores against the in-process reference server of harness/c09_server.go, which
 //     serves a remote repository holding the advertised commits; objs is the generator's prediction
@@ -35,6 +39,54 @@ import (
 //     `wrgl pull` / `wrgl fetch --depth` against the reference server, then `wrgl merge` in its ff modes
 //     and `wrgl pull --depth`, all through wrgl.RootCmd() on a badger + sqlite repository; the
 //     invariants are judged after every command.
+
+// ---------------------------------------------------------------- the real commit / merge of cmd/wrgl
+
+// a bare command with the flags and the context the functions of cmd/wrgl read
+func (e *c13Env) cliCmd(stdin []byte) *cobra.Command {
+	cmd := &cobra.Command{Use: "wrgl"}
+	cmd.Flags().IntP("num-workers", "n", e.workers, "")
+	cmd.Flags().Uint64("mem-limit", 0, "")
+	cmd.Flags().Bool("no-progress", true, "")
+	cmd.Flags().String("delimiter", "", "")
+	lg := logr.Discard()
+	cmd.SetContext(utils.SetLogger(context.Background(), &lg))
+	cmd.SetOut(io.Discard)
+	cmd.SetErr(io.Discard)
+	if stdin != nil {
+		cmd.SetIn(bytes.NewReader(stdin))
+	}
+	return cmd
+}
+
+var c13Conf = &conf.Config{User: &conf.User{Name: "V", Email: "v@x.y"}}
+
+func (e *c13Env) realCommit(st *c13Stores, r int, tbl *xt.T, nonce int) error {
+	csv := e.u.csv[c13TableKey(tbl)]
+	if csv == nil {
+		return fmt.Errorf("c13: no CSV for table %s", tbl)
+	}
+	_, err := wrgl.VerifCommit(e.cliCmd(csv), st.db, st.rs, "-", fmt.Sprintf("c%d", nonce), fmt.Sprintf("b%d", r),
+		[]string{"id"}, c13Conf, true, nil, 0)
+	return err
+}
+
+func (e *c13Env) realCommitWithTable(st *c13Stores, r int, tbl *xt.T, nonce int) error {
+	ts := e.u.tableSum[c13TableKey(tbl)]
+	if ts == nil {
+		return fmt.Errorf("c13: unknown table")
+	}
+	_, err := wrgl.VerifCommitWithTable(e.cliCmd(nil), c13Conf, st.db, st.rs, fmt.Sprintf("b%d", r), ts, fmt.Sprintf("c%d", nonce), nil)
+	return err
+}
+
+func (e *c13Env) realMerge(st *c13Stores, r int, others [][]byte, nonce int, ff conf.FastForward) error {
+	args := []string{fmt.Sprintf("b%d", r)}
+	for _, o := range others {
+		args = append(args, hex.EncodeToString(o))
+	}
+	return wrgl.VerifRunMerge(e.cliCmd(nil), c13Conf, st.db, st.rs, args, false, false, ff, "", e.workers, fmt.Sprintf("c%d", nonce), nil)
+}
 
 // putCommitFull stores a commit, its ancestors, their tables and blocks (as a full remote has them)
 func (u *c13Universe) putCommitFull(db objects.Store, cid *xt.T) {
